@@ -4,6 +4,7 @@ import itertools
 import random
 import threading
 import common as C
+import gen_server
 
 PROPERTIES = ["C13", "C14"]
 MANIFEST = {
@@ -20,9 +21,37 @@ MANIFEST = {
         "design_ref": "DESIGN.md 3/C14",
     },
 }
-PROPS = {"C13": ["Nstd.Server.PropsC13", "Nstd.Server.PropsC13Batch"], "C14": ["Nstd.Server.PropsC14"]}
+PROPS = {"C13": ["Nstd.Server.PropsC13", "Nstd.Server.PropsC13Batch", "Nstd.Server.PropsTr", "Nstd.Server.PropsTr13"],
+         "C14": ["Nstd.Server.PropsC14", "Nstd.Server.PropsTr"]}
 LEAN_TARGETS = ["Nstd.Server.Props", "drv_server"]
 DRIVER = "drv_server"
+GEN_TR = C.LEAN / "Nstd" / "Generated" / "ServerTr.lean"
+
+
+def translate(repo=None):
+    """(ok, message): the bodies of ClientImpl::suspend/resume/write/read, the read / write-ready branches of run(), Socket::send,
+    Socket::recv (first switch), Poll::Private::mapEvents/unmapEvents of the CURRENT sources -> lean/Nstd/Generated/ServerTr.lean
+    (tools/gen_server.py); a shape outside the understood subset is refused"""
+    try:
+        return True, gen_server.generate(repo or C.REPO, GEN_TR)
+    except gen_server.Refuse as e:
+        return False, "tools/gen_server.py refuses the current Server.cpp / Socket.cpp (broken tie): " + str(e)
+    except OSError as e:
+        return False, "tools/gen_server.py: " + str(e)
+
+
+def gen(ctx):
+    ok, msg = translate()
+    if ctx is not None:
+        ctx.cov.setdefault("translated", msg)
+        ctx.log("translator: " + msg)
+    return ok, msg
+
+
+def setup():
+    ok, msg = translate()
+    if not ok:
+        print("server translate:", msg)
 
 
 def harness_sources():
@@ -347,7 +376,7 @@ def check_c13(ctx):
         "Buffer is a faithful byte queue (property C08); allocation never fails",
         "the user's onClosed callback removes the client (server.remove), as the harness callback does — peer_stream_prefix (after a close the peer has seen a prefix of the accepted data) depends on it: a callback that keeps a client whose write-ready send failed and writes again would make the peer see the stream with a gap",
     ]
-    proof_ok = C.proof_stage(ctx, PROPS["C13"], [DRIVER], leanchecker=(ctx.tier == "thorough"))
+    proof_ok = C.proof_stage(ctx, PROPS["C13"], [DRIVER], gen=gen, leanchecker=(ctx.tier == "thorough"))
     harness = build(ctx)
     if harness is None or not C.driver_path(DRIVER).exists():
         return
@@ -1150,7 +1179,7 @@ def check_c14(ctx):
         "host-name resolving establishers (Server::connect(String…)) and Server::clear() are not modelled",
         "liveness (ready_eventually_dispatched): KernelFair — if run() asks the kernel again and again, then again and again an answer reports the socket ready (level-triggered epoll; at once unless more than 64 descriptors are ready); ClosingCalm — onClosed callbacks do not make a client fail again; ClockOk — CLOCK_MONOTONIC does not run backwards while the timer loop runs",
     ]
-    proof_ok = C.proof_stage(ctx, PROPS["C14"], [DRIVER], leanchecker=(ctx.tier == "thorough"))
+    proof_ok = C.proof_stage(ctx, PROPS["C14"], [DRIVER], gen=gen, leanchecker=(ctx.tier == "thorough"))
     harness = build(ctx)
     if harness is None or not C.driver_path(DRIVER).exists():
         return
